@@ -49,7 +49,7 @@ def run(ctx):
     return standard(ctx,
         props=[("Props.C06", THEOREMS)],
         harness=("TestVerif_C06", ["kmd/common.go", "kmd/creds.go", "kmd/consts.go", "kmd/vdevice.go", "kmd/c06.go", "kmd/c06_hist.go", "kmd/c06_role.go"]),
-        obl=("Obl_C06.v", ["c06_routes_classified", "c06_no_stale_rows", "c06_keys_unique"]),
+        obl=("Obl_C06.v", ["c06_routes_classified", "c06_no_stale_rows", "c06_keys_unique", "c06_x509_issuing_sites"]),
         cases=("CasesC06.v", [("c06_gate_mismatches", "checkAuth (user, level, status, issue instant) = model check_auth on every shape (single credentials and certificate x cookie x basic-auth combinations) x mask x method x origin x deny list", "CasesC06_gate.idx"),
                               ("c06_route_mismatches", "per route of the regenerated mux: logged identity = model, observed effects within the model's"),
                               ("c06_window_gate_mismatches", "checkAuth on session cookies minted around the request (exp / nbf a few seconds to an hour before and after the clock, iat in the future, with and without a basic-auth header) = model check_auth at a clock reading inside the interval measured around the call (nanoseconds; no other tolerance)", "CasesC06_wgate.idx"),
